@@ -167,7 +167,7 @@ type c04Stream struct {
 
 func genC04Program(t *rapid.T) *c04Program {
 	p := &c04Program{
-		Topology: rapid.SampledFrom([]string{"lock", "combine", "file", "buffered", "tee", "shared-locked"}).Draw(t, "topology"),
+		Topology: rapid.SampledFrom([]string{"lock", "combine", "file", "buffered", "tee", "shared-locked", "file-twice"}).Draw(t, "topology"),
 		BufSize:  rapid.SampledFrom([]int{64, 128, 256, 1024, 4096}).Draw(t, "bufSize"),
 		Procs:    rapid.SampledFrom([]int{1, 2, 4, 16}).Draw(t, "gomaxprocs"),
 	}
@@ -244,6 +244,29 @@ func c04Run(t interface{ Fatalf(string, ...any) }, p *c04Program) (alternations 
 			streams = append(streams, &c04Stream{name: "zap.Open " + f, data: func() []byte { b, _ := os.ReadFile(f); return b }})
 		}
 		core = zapcore.NewCore(zapcore.NewJSONEncoder(jcfg), ws, zapcore.DebugLevel)
+	case "file-twice":
+		// the SAME file reached by two routes, as when two loggers are built from one configuration or a path is
+		// listed under OutputPaths and ErrorOutputPaths: two zap.Open calls, two handles, two locks. Every line of
+		// every goroutine must still be in the file, whole (the file sink appends).
+		dir := os.Getenv("VERIF_WORKDIR")
+		if dir == "" {
+			dir = os.TempDir()
+		}
+		f1 := fmt.Sprintf("%s/c04-%d-twice.log", dir, os.Getpid())
+		os.Remove(f1)
+		ws1, close1, err := zap.Open(f1)
+		if err != nil {
+			t.Fatalf("VERIF-INCONCLUSIVE zap.Open: %v", err)
+		}
+		ws2, close2, err := zap.Open("file://" + f1)
+		if err != nil {
+			close1()
+			t.Fatalf("VERIF-INCONCLUSIVE zap.Open: %v", err)
+		}
+		closers = append(closers, func() { close1(); close2() }, func() { os.Remove(f1) })
+		streams = append(streams, &c04Stream{name: "two zap.Open of " + f1, data: func() []byte { b, _ := os.ReadFile(f1); return b }})
+		core = zapcore.NewCore(zapcore.NewJSONEncoder(jcfg), ws1, zapcore.DebugLevel)
+		altCore = zapcore.NewCore(zapcore.NewJSONEncoder(jcfg), ws2, zapcore.DebugLevel)
 	case "buffered":
 		bws = &zapcore.BufferedWriteSyncer{WS: mkSink("Buffered(sink)", false), Size: p.BufSize, FlushInterval: time.Second, Clock: clk}
 		core = zapcore.NewCore(zapcore.NewJSONEncoder(jcfg), bws, zapcore.DebugLevel)
@@ -568,7 +591,7 @@ func c04Replay(t *testing.T, file string) {
 
 func TestRegressC04(t *testing.T) {
 	// a fixed busy program on every topology
-	for _, topo := range []string{"lock", "combine", "file", "buffered", "tee"} {
+	for _, topo := range []string{"lock", "combine", "file", "buffered", "tee", "file-twice"} {
 		p := &c04Program{Topology: topo, BufSize: 128, Procs: 4}
 		for g := 0; g < 6; g++ {
 			var sc []c04Op
